@@ -217,7 +217,7 @@ class C08(Check):
     level_text = ('Every position of each generated stack is faulted once per run (fault_enumeration over positions); behaviours, '
                   'handlers, messages and histories are sampled by seed; each faulty request is followed by recovery probes.')
     level_note = 'Trusted: the outcome model (~60 lines, from the property text); the gateway monitor.'
-    required_probes = ('typed-binding-odd-segment', 'concurrent-faulted-requests', 'handler-installed-as-type-on-application-subclass', 'tracebacklimit-set', 'debug-handler-without-frames', 'other-application-in-process', 'escaped-original-exception', 'render-error-fallback', 'handler-replaced-error', 'recovered',
+    required_probes = ('first-requests-of-a-process', 'typed-binding-odd-segment', 'concurrent-faulted-requests', 'handler-installed-as-type-on-application-subclass', 'tracebacklimit-set', 'debug-handler-without-frames', 'other-application-in-process', 'escaped-original-exception', 'render-error-fallback', 'handler-replaced-error', 'recovered',
                        'nonbreaking-http', 'huge-message')
 
     def gen_config(self, rng):
@@ -316,7 +316,61 @@ class C08(Check):
         ex = call_app(app, make_environ(op['method'], op['path'], headers=hdr, body=b'b' if op['method'] == 'POST' else b''))
         return ex
 
+    def extra_plans(self, tier, base_seed):
+        """The first requests a PROCESS serves (a freshly started interpreter per plan): two failing requests in flight at
+        once, the first one parked at its k-th line -- whatever the framework sets up on first use is being set up right
+        then.  Where "right then" is comes from a calibration (again in a fresh interpreter): the batch is served twice
+        without pre-emption, the lines the first client passes only the FIRST time are the first-use code; the client is
+        parked at each of them (and right behind), plus at a few fixed depths."""
+        from concurrent.futures import ThreadPoolExecutor
+        from sim.core import freshproc
+        rng = Streams(base_seed)['fresh']
+        fixed = [15, 60, 150, 300]
+        batches = [('text/html', 'EP', '/nope'), ('text/html', '/nope', 'EP'), ('application/json', 'EP', '/nope'), ('text/html', 'EP', 'EP'), ('application/xml', '/nope', '/only-post'), (None, '/x', 'EP')]
+        if tier != 'quick':
+            batches += [(acc, a, b) for acc in ('text/html', 'application/json', 'text/plain', None) for a, b in (('EP', '/only-post'), ('/only-post', 'EP'), ('/nope', '/nope'), ('RN', 'EP'))]
+        handlers = ['debug', 'debug', 'default'] if tier == 'quick' else ['debug', 'default', 'debug_plain_types', 'default_ctx_types', 're_raises']
+        specs = []
+        for j, (accept, a, b) in enumerate(batches):
+            for handler in (handlers[j % len(handlers)],) if tier == 'quick' else handlers:
+                cfg = {'mws': [], 'ep_returns': 'dict', 'has_render': True, 'handler': handler, 'handler_via': 'argument', 'tracebacklimit': None}
+
+                def rq(what):
+                    if what in ('EP', 'RN'):
+                        return {'method': 'GET', 'path': '/x', 'accept': accept, 'faults': {what: {'beh': 'raise', 'exc': rng.choice(sorted(EXC_TYPES)), 'msg': 'plain'}}}
+                    return {'method': 'GET', 'path': what, 'accept': accept, 'faults': {}}
+                specs.append((cfg, [rq(a), rq(b)], j % 2 == 0 or handler != 'debug'))
+
+        def calibrate(spec):
+            cfg, batch, late = spec
+            op = {'conc': batch, 'granularity': 'line', 'order': ['T0', 'T1'], 'preempts': [], 'trace': True}
+            r = freshproc.run('C08', {'world': 'chain', 'seed': base_seed, 'config': cfg, 'ops': [op, op], 'late_baseline': late})
+            tr = r.extra.get('traces', [])
+            if len(tr) != 2:
+                return []
+            first = tr[0]['trace'][:tr[0]['finish'].get('T0', 0)]
+            warm = set(tr[1]['trace'])
+            cold = [i + 1 for i, loc in enumerate(first) if loc not in warm]
+            ks = sorted(set(cold) | set(k + 1 for k in cold))
+            cap = 12 if tier == 'quick' else 80
+            if len(ks) > cap:
+                ks = [ks[(i * len(ks)) // cap] for i in range(cap)]
+            return ks
+        with ThreadPoolExecutor(max_workers=8) as tp:
+            found = list(tp.map(calibrate, specs))
+        for (cfg, batch, late), ks in zip(specs, found):
+            for k in sorted(set(ks) | set(fixed if tier != 'quick' else fixed[:2])):
+                yield {'world': 'chain', 'seed': base_seed, 'config': cfg, 'fresh_process': True, 'first_use_steps': len(ks), 'late_baseline': late,
+                       'ops': [{'conc': batch, 'granularity': 'line', 'order': ['T0', 'T1'], 'preempts': [[k, 'T1']]}]}
+
     def execute(self, plan):
+        if plan.get('fresh_process'):
+            from sim.core import freshproc
+            res = freshproc.run('C08', plan)
+            res.probe('first-requests-of-a-process')
+            if plan.get('first_use_steps'):
+                res.probe('first-use-code-located')
+            return res
         res = RunResult()
         cfg = plan['config']
         K = 'C08/'
@@ -360,7 +414,9 @@ class C08(Check):
                 out.append((ex.code, type(ex.escaped).__name__ if ex.escaped else None,
                             ex.header('X-Sim-From'), [e[0] for e in ex.errors]))
             return out
-        baseline = snapshot(-1)
+        # (late_baseline: the concurrent batch is the very first thing the application -- and the process -- serves;
+        # what the healthy probes answer is recorded right after it)
+        baseline = snapshot(-1) if not plan.get('late_baseline') else None
         res.ev('baseline', canon(baseline))
         for step, op in enumerate(plan['ops']):
             if 'other_app' in op:
@@ -377,6 +433,8 @@ class C08(Check):
                 if not self.concurrent(app, cfg, op, step, res):
                     break
                 snap = snapshot(3000 + step)
+                if baseline is None:
+                    baseline = snap
                 if snap != baseline:
                     res.violate(K + 'no-recovery@concurrent', 'step %d: after a concurrent batch the healthy probes answer %s, before %s'
                                 % (step, snap, baseline), step)
@@ -480,8 +538,10 @@ class C08(Check):
             tasks['T%d' % i] = task
         names = sorted(tasks)
         order = [n for n in op.get('order', names) if n in names] + [n for n in names if n not in op.get('order', names)]
-        sched = BatonScheduler(order, op.get('preempts', []), op.get('granularity', 'line'), WATCH)
+        sched = BatonScheduler(order, op.get('preempts', []), op.get('granularity', 'line'), WATCH, record_trace=bool(op.get('trace')))
         sched.run(tasks)
+        if op.get('trace'):
+            res.extra.setdefault('traces', []).append({'trace': sched.trace, 'finish': dict(sched.finish_step)})
         res.fire('preempt', len(sched.switches))
         res.probe('concurrent-faulted-requests')
         res.nontrivial = True
